@@ -1,5 +1,6 @@
 import PoxModel.Proofs.Contain
 import PoxModel.Proofs.SwTrace
+import PoxModel.Proofs.CtlTrace
 /-! # C10 — malformed OpenFlow input is contained to the offending connection
 
 `U` (the message decoders) is COMPLETELY unconstrained in every theorem of this file: it may return any offset, raise,
@@ -135,6 +136,82 @@ example : ((swFeedT demoU initT demoStream).trace.map SwEv.reply) =
 example : (swFeedT demoU initT [4,2,0,8,0,0,0,7]).st = .closed ∧
     ((swFeedT demoU initT [4,2,0,8,0,0,0,7]).trace.map (fun e => (SwEv.reply e).map (fun r => (r.1, r.2.1, r.2.2.1)))) = [some (0, 0, 7)] := by decide
 example : ((swFeedT demoU initT ([1,2,0,8,0,0,0,1] ++ [4,2,0,8,0,0,0,7])).trace.map (fun e => (SwEv.reply e).isSome)) = [false, false] := by decide
+
+/-! ## controller side: every byte accounted for; a failing connection is closed by the task, the loop goes on -/
+
+/-- the window-keeping controller model is the model all other theorems are about, plus bookkeeping -/
+theorem ctl_trace_is_feed (U : Unpack Msg) (chunks : List Bytes) :
+    (chunks.foldl (ctlFeedT U 8) initCT).buf = (chunks.foldl (ctlFeed U 8) init).buf ∧
+    (chunks.foldl (ctlFeedT U 8) initCT).trace.map (·.2) = (chunks.foldl (ctlFeed U 8) init).delivered ∧
+    (chunks.foldl (ctlFeedT U 8) initCT).st = (chunks.foldl (ctlFeed U 8) init).st :=
+  ctlFeedT_proj U chunks
+
+/-- **ctl_accounted**: for every byte string, however it is cut into reads and whatever the decoders do, the stream is
+the concatenation of the dispatched windows in order (each a whole message: declared length = size ≥ 8, so dispatching
+starts at message boundaries only and no window overlaps another), then what is still buffered, then — only once the
+connection is no longer alive — the bytes that were ignored.  The controller never skips: what it cannot dispatch ends the
+connection (`ctl_task_contained`). -/
+theorem ctl_accounted (U : Unpack Msg) (chunks : List Bytes) :
+    let s := chunks.foldl (ctlFeedT U 8) initCT
+    (∃ rest, chunks.flatten = (s.trace.map (·.1)).flatten ++ s.buf ++ rest ∧ (s.st = .alive → rest = [])) ∧
+    (∀ e ∈ s.trace, CtlFramed e.1) := by
+  intro s
+  have h := ctlAccounted_run U chunks
+  exact ⟨h.tiled, h.framed⟩
+
+/-- **ctl_task_contained**: one round of the controller's serving task for connection `i` — whatever the bytes and the
+decoders do, afterwards no connection is in the "exception escaped" state (the task's `except:` closed it and dropped
+it), and every other connection is exactly as before -/
+theorem ctl_task_contained (U : Unpack Msg) (net : List (CS Msg)) (i : Nat) (c : Bytes)
+    (h : ∀ x ∈ net, x.st ≠ .dead) :
+    (∀ x ∈ ctlServe U net i c, x.st ≠ .dead) ∧ ∀ j, j ≠ i → (ctlServe U net i c)[j]? = net[j]? := by
+  refine ⟨?_, fun j hj => feedAt_others _ net i j c hj⟩
+  intro x hx
+  unfold ctlServe feedAt at hx
+  cases hn : net[i]? with
+  | none => rw [hn] at hx; exact h x hx
+  | some y =>
+    rw [hn] at hx
+    simp only [] at hx
+    rcases List.mem_or_eq_of_mem_set hx with hm | he
+    · exact h x hm
+    · subst he
+      by_cases hd : (ctlFeed U 8 y c).st = .dead
+      · simp [hd]
+      · simp [hd]
+
+/-- a decoder is window-local when decoding the window alone gives the same message it gave inside the stream — what
+C01 proves of the real decoders on well-formed messages, and what the harness tests of them on every delivered window
+(re-decoding it followed by other bytes) -/
+def WindowLocal (U : Unpack Msg) : Prop :=
+  ∀ ty buf n m, U ty buf 0 = .ok (n, m) → n ≤ buf.length → U ty (buf.take n) 0 = .ok (n, m)
+
+/-- **sw_deliver_window_only**: with window-local decoders, every message the switch delivers is what the decoder gives
+on a well-framed window taken alone — no byte of a neighbouring message takes part in it -/
+theorem sw_deliver_window_only (U : Unpack Msg) (hU : WindowLocal U) (s : CS Msg) (c : Bytes) (m : Msg) (hs : s.st = .alive)
+    (hm : m ∈ (swFeed U s c).delivered) :
+    m ∈ s.delivered ∨ ∃ w, 8 ≤ w.length ∧ w.length = declLen w 0 ∧ U (byteAt w 1) w 0 = .ok (w.length, m) := by
+  rcases sw_no_overread U s c m hs hm with h | ⟨k, n, h1, h2, h3, h4⟩
+  · exact .inl h
+  · generalize s.buf ++ c = B at h1 h2 h4
+    have hdl : (B.drop k).length = B.length - k := List.length_drop
+    have hl : ((B.drop k).take n).length = n := by rw [List.length_take, hdl]; omega
+    have hfr : CtlFramed (((B.drop k).drop 0).take n) :=
+      ctlFramed_window (B.drop k) 0 n (by rw [h2]) h3 (by rw [hdl]; omega)
+    rw [List.drop_zero] at hfr
+    have hb1 : byteAt ((B.drop k).take n) 1 = byteAt (B.drop k) 1 := by
+      unfold byteAt
+      simp only [List.getD_eq_getElem?_getD]
+      rw [List.getElem?_take_of_lt (by omega)]
+    refine .inr ⟨(B.drop k).take n, hfr.1, hfr.2, ?_⟩
+    rw [hl, hb1]
+    exact hU _ _ n m h4 (by rw [hdl]; omega)
+
+/-! non-vacuity: a decoder that looks at nothing but its own 8 bytes is window-local; `demoStream` through the
+window-keeping controller loop tiles into one dispatched window before the raising decoder ends the connection -/
+example : WindowLocal (fun _ _ off => (.ok (off + 8, ()) : Res (Nat × Unit))) := by intro ty buf n m h _; exact h
+example : ((ctlFeedT demoU 8 initCT demoStream).trace.map (·.1)) = [[1,2,0,8,0,0,0,1]] ∧
+    (ctlFeedT demoU 8 initCT demoStream).st = .dead := by decide
 
 /-- **ctl_disconnect_stops** (repair C09-2 seen from the read loop): whatever the handlers do, within one `read()`
 nothing is dispatched after a message whose handler disconnected the connection — every newly delivered message except
